@@ -20,7 +20,7 @@ RULE = ("universes (2-6 projects x 1-4 versions incl. pre/post/dev releases, req
         "distinct = distinct (universe, inputs, constraints, options).")
 TRUSTED_BASE = SP.TRUSTED_BASE
 ASSUMPTIONS = SP.ASSUMPTIONS
-LEVEL_TEXT = "Soundness (for all graphs) of the executable closure checker evaluated on every correspondence outcome; the full statement is refuted by vm_compute witnesses replayed on /repo (a successful run that leaves an input's project unsolved); the second former counter-example (a requested extra dropped by edge-reason overwrite) is repaired in /repo and kept as a positive witness. Closure/minimality of the unchanged code therefore holds only on the runs where the checker says so; the solver model itself is tied to /repo by whole-compile correspondence (emitted set included)."
+LEVEL_TEXT = "Theorems for EVERY run on the Gallina solver model: the graph a successful compile returns is closed and the traversal that selects the output returns exactly the reachable set (ClosedP); a compile that succeeds leaves no project reachable from the inputs unsolved (SolvedP, by the final check of perform_compile, repaired in /repo 88940d5), and a failing final check names the merged constraints of a required unsolved project; emitted is a subset of the reachable closure; closure checker sound (for all graphs) and evaluated on every correspondence outcome; a requested extra is expanded (former counter-example repaired in /repo 371114e, kept as positive witness). Minimality ('nothing is emitted that nobody requires') is refuted by two vm_compute witnesses replayed on /repo (a link kept from an abandoned candidate; an extra requested only through a constraint file) - known findings. The solver model is tied to /repo by whole-compile correspondence (emitted set included)."
 LEVEL_NOTE = ("Trusted: Coq kernel, extraction, OCaml drivers, T1/T2 harness, packaging semantics (validated by the C17 grid), the "
               "measured set-iteration and marker oracles. Modelled, not verified: compile.py, dists.py, versions.py, containers.py.")
 TECHNIQUE = "Rocq theorems on a Gallina model of the solver + vm_compute refutation witnesses + extraction-based whole-compile differential correspondence"
